@@ -87,6 +87,7 @@ def fits(y, mo, rest):
 
 
 class Durations(Sub):
+    ambient = True
     name = "durations"
     n = {"quick": 20000, "thorough": 800000}
     shards = {"quick": 3, "thorough": 8}
@@ -150,6 +151,7 @@ def invalid_case(draw):
 
 
 class InvalidDurations(Sub):
+    ambient = True
     name = "invalid_durations"
     n = {"quick": 3000, "thorough": 60000}
     shards = {"quick": 1, "thorough": 4}
@@ -211,6 +213,7 @@ def fields(x):
 
 
 class Intervals(Sub):
+    ambient = True
     name = "intervals"
     n = {"quick": 10000, "thorough": 300000}
     shards = {"quick": 2, "thorough": 8}
@@ -282,6 +285,7 @@ class Intervals(Sub):
 
 
 class ZoneIntervals(Sub):
+    ambient = True
     name = "intervals_in_dst_zones"
     n = {"quick": 8000, "thorough": 200000}
     shards = {"quick": 2, "thorough": 8}
